@@ -18,7 +18,11 @@ same current space.  z3 decides for ALL values of the unknown integrals / voltag
 near field of D' with I' equals that of D with C^T I' (numerical integrals concrete, currents symbolic).  A structural difference is replayed by
 the property's own sentence: both descriptions are solved on the real code for a feed on every
 common pulse and compared within 5e-4 (scaled with the condition number).
-Outside: splitting a straight wire into collinear pieces (different kernel shortcuts, numeric).
+ (d)  splitting: a straight wire entered as two connected collinear pieces that keep the segment boundaries (second piece in place,
+      listed last, or entered towards the first) gives the same number of unknowns and Z' = C Z C^T for every entry except the self
+      term of the pulse at the new junction (the code integrates touching segments of ONE wire with the exact kernel and of two wires
+      with the reduced kernel: two different numerical integrals for the same mathematical one); that entry is settled by the
+      property's own sentence on the real code.
 """
 import itertools
 import math
@@ -50,6 +54,81 @@ def variant(M, gname, nmul, perm, rev, f=catalogue.F0):
             w.segtype = (3 - o[5]) if (rev[k] and o[5] in (1, 2)) else o[5]
         geo.append(w)
     return M.Mininec(f, geo, media=[M.Medium(0, 0)] if gnd else None)
+
+
+def build_objs(M, objs, gnd, f=catalogue.F0):
+    geo = []
+    for o in objs:
+        w = M.Wire(o[1], *o[2], *o[3], o[4])
+        if len(o) > 5:
+            w.segtype = o[5]
+        geo.append(w)
+    return M.Mininec(f, geo, media=[M.Medium(0, 0)] if gnd else None)
+
+
+def split_objs(objs, k, j, where):
+    """wire k (n equal segments) entered as two connected collinear wires of j and n - j segments of the same length; the second piece
+    takes the place after the first ('inplace') or comes last ('last'), or the two pieces are entered towards each other ('facing')."""
+    o = objs[k]
+    n = o[1]
+    p, q = np.array(o[2], dtype=float), np.array(o[3], dtype=float)
+    mid = tuple(float(v) for v in (p + (q - p) * (j / n)))
+    a = ('w', j, o[2], mid, o[4])
+    b = ('w', n - j, mid, o[3], o[4]) if where != 'facing' else ('w', n - j, o[3], mid, o[4])
+    out = list(objs[:k]) + [a] + ([b] if where != 'last' else []) + list(objs[k + 1:]) + ([b] if where == 'last' else [])
+    return out
+
+
+SPLITS = [('G1', 1, 0, 3, 'inplace'), ('G7', 1, 0, 2, 'inplace'), ('G2', 2, 0, 2, 'last'), ('G9', 2, 1, 4, 'facing'), ('G8', 2, 0, 3, 'inplace'),
+          ('G2', 2, 1, 1, 'inplace'), ('G5', 2, 2, 2, 'facing'), ('G10', 2, 2, 3, 'last')]
+
+
+def split(ck, sh, mm, gname, nmul, k, j, where):
+    """Splitting a straight wire into two connected collinear pieces that keep the segment boundaries.  Both descriptions are filled over
+    one atom table.  The code integrates a pair of segments of the SAME wire that touch with the exact kernel (elliptic integral) and a
+    touching pair on two wires with the reduced one: such entries are different linear forms over the atoms by construction, the solver
+    reports them, and they are settled by the property's own sentence on the real code (currents, impedance, near and far field within
+    5e-4); every other entry is decided by the solver alone."""
+    M = sh.mininec
+    T = psistub.AtomTable()
+    pc.install(M, T)
+    objs, gnd = catalogue.spec(gname, nmul=nmul)
+    sobjs = split_objs(objs, k, j, where)
+    vname = 'split-%s-x%d-wire%d-at%d-%s' % (gname, nmul, k + 1, j, where)
+    vn = 'wire %d entered as two pieces of %d and %d segments (%s)' % (k + 1, j, objs[k][1] - j, where)
+
+    def fn():
+        c = symx.ctx()
+        m0 = pc.fill(M, build_objs(M, objs, gnd))
+        m1 = pc.fill(M, build_objs(M, sobjs, gnd))
+        C = basis_change(m0, m1)
+        if C is None:
+            return dict(inputs={}, C=None)
+        for a in pc.additivity_axioms(T):
+            c.axiom(a)
+        for b in T.box(1.0):
+            c.assume(b)
+        n1 = len(m1.pulses)
+        ents = []
+        for jj in range(n1):
+            for l in range(n1):
+                acc = SC(0.0, 0.0)
+                for i in np.nonzero(C[jj])[0]:
+                    for kk in np.nonzero(C[l])[0]:
+                        acc = acc + SC.lift(m0.Z[i][kk]) * int(C[jj][i] * C[l][kk])
+                ents.append((jj, l, m1.Z[jj][l], acc))
+        return dict(inputs={}, C=C, ents=ents, n0=len(m0.pulses), n1=n1)
+
+    def goals(o):
+        if o['C'] is None:
+            return [("the pulses of the split description span the same current space", z3.BoolVal(False))]
+        g = [('same number of unknowns', z3.BoolVal(o['n0'] == o['n1']))]
+        return g + [("Z'[%d][%d] = (C Z C^T)[%d][%d]" % (jj, l, jj, l), pc.close_goal(a, b)) for jj, l, a, b in o['ents']]
+
+    def replay(conc, gn, out):
+        return replay_sentence(mm, gname, nmul, None, None, builders=(lambda: build_objs(mm, objs, gnd), lambda: build_objs(mm, sobjs, gnd)), vn=vn)
+    prove_paths(ck, vname, fn, goals, replay, max_paths=2, timeout_ms=20000 if ck.tier == 'quick' else 120000, twin_timeout_ms=20000)
+    ck.bounds.setdefault('split', []).append('%s x%d: %s' % (gname, nmul, vn))
 
 
 def _key(x):
@@ -155,13 +234,16 @@ def matrix(ck, sh, mm, gname, nmul, chunk, nchunks):
     ck.bounds.setdefault('matrix', []).append('%s x%d: variants %s' % (gname, nmul, [(''.join(map(str, p)), ''.join(map(str, r))) for p, r in vs]))
 
 
-def replay_sentence(mm, gname, nmul, perm, rev):
+def replay_sentence(mm, gname, nmul, perm, rev, builders=None, vn=None):
     objs, gnd = catalogue.spec(gname)
     nw = len(objs)
-    base = variant(mm, gname, nmul, list(range(nw)), [0] * nw)
-    other = variant(mm, gname, nmul, perm, rev)
+    if builders is None:
+        builders = (lambda: variant(mm, gname, nmul, list(range(nw)), [0] * nw), lambda: variant(mm, gname, nmul, perm, rev))
+        vn = 'order %s, reversed %s' % (list(perm), [k for k in range(nw) if rev[k]])
+    b0, b1 = builders
+    base = b0()
+    other = b1()
     C = basis_change(base, other)
-    vn = 'order %s, reversed %s' % (list(perm), [k for k in range(nw) if rev[k]])
     zen, azi = mm.Angle(10.0, 20.0, 5 if gnd else 9), mm.Angle(0.0, 45.0, 8)
     if C is None:
         # the pulse geometry of the two descriptions differs: evaluate the property's sentence on what is
@@ -173,8 +255,8 @@ def replay_sentence(mm, gname, nmul, perm, rev):
             ii = pts0.get(_key(q.point), [])
             if len(ii) != 1 or sum(1 for x in other.pulses if _key(x.point) == _key(q.point)) != 1:
                 continue
-            m0 = variant(mm, gname, nmul, list(range(nw)), [0] * nw)
-            m1 = variant(mm, gname, nmul, perm, rev)
+            m0 = b0()
+            m1 = b1()
             m0.register_source(mm.Excitation(1 + 0.5j), ii[0])
             m1.register_source(mm.Excitation(1 + 0.5j), q.idx)
             m0.compute()
@@ -188,11 +270,11 @@ def replay_sentence(mm, gname, nmul, perm, rev):
                 return ('C06:impedance:%s' % ('ground' if gnd else 'free'),
                         '%s (x%d; %s), feed at %s: impedance %r vs %r (the two descriptions do not even have the same pulse geometry)'
                         % (gname, nmul, vn, [round(float(c), 4) for c in q.point], z0, z1),
-                        dict(kind='sentence', geometry=gname, perm=list(perm), rev=list(rev)))
+                        dict(kind='sentence', geometry=gname, variant=vn))
         return None
     for j, i, s in simple_rows(C):
-        m0 = variant(mm, gname, nmul, list(range(nw)), [0] * nw)
-        m1 = variant(mm, gname, nmul, perm, rev)
+        m0 = b0()
+        m1 = b1()
         V = 1 + 0.5j
         m0.register_source(mm.Excitation(V), i)
         m1.register_source(mm.Excitation(V * s), j)
@@ -210,12 +292,12 @@ def replay_sentence(mm, gname, nmul, perm, rev):
             return ('C06:currents:%s' % ('ground' if gnd else 'free'),
                     '%s (x%d; %s), feed on pulse %d: current of pulse %d is %r, in the other description %r (tolerance %.1e, cond %.0f)'
                     % (gname, nmul, vn, i + 1, k + 1, complex(i0[k]), complex(i1[k]), tol, cond),
-                    dict(kind='sentence', geometry=gname, perm=list(perm), rev=list(rev)))
+                    dict(kind='sentence', geometry=gname, variant=vn))
         z0, z1 = m0.sources[0].impedance, m1.sources[0].impedance
         if abs(z0 - z1) > tol * abs(z0):
             return ('C06:impedance:%s' % ('ground' if gnd else 'free'),
                     '%s (x%d; %s), feed on pulse %d: impedance %r vs %r' % (gname, nmul, vn, i + 1, z0, z1),
-                    dict(kind='sentence', geometry=gname, perm=list(perm), rev=list(rev)))
+                    dict(kind='sentence', geometry=gname, variant=vn))
         xnf = np.array([1.3, -0.8, 2.5])
         nf = []
         for m in (m0, m1):
@@ -225,7 +307,7 @@ def replay_sentence(mm, gname, nmul, perm, rev):
             return ('C06:near-field:%s' % ('ground' if gnd else 'free'),
                     '%s (x%d; %s), feed on pulse %d: near field at %s is E %s / %s in the two descriptions'
                     % (gname, nmul, vn, i + 1, [float(v) for v in xnf], np.array2string(nf[0][:3], precision=4), np.array2string(nf[1][:3], precision=4)),
-                    dict(kind='sentence', geometry=gname, perm=list(perm), rev=list(rev)))
+                    dict(kind='sentence', geometry=gname, variant=vn))
         m0.compute_far_field(zen, azi)
         m1.compute_far_field(zen, azi)
         e0 = np.stack([m0.far_field.e_theta, m0.far_field.e_phi])
@@ -234,7 +316,7 @@ def replay_sentence(mm, gname, nmul, perm, rev):
             return ('C06:far-field:%s' % ('ground' if gnd else 'free'),
                     '%s (x%d; %s), feed on pulse %d: far field differs by %.3g of its maximum'
                     % (gname, nmul, vn, i + 1, np.abs(e0 - e1).max() / np.abs(e0).max()),
-                    dict(kind='sentence', geometry=gname, perm=list(perm), rev=list(rev)))
+                    dict(kind='sentence', geometry=gname, variant=vn))
     return None
 
 
@@ -381,12 +463,14 @@ def main(args):
         for g in ('G2', 'G6', 'G9'):
             parts += [('rhs_far', (g, c, 2)) for c in range(2)]
         parts += [('near_rel', (g,)) for g in ('G2', 'G3')]
+        parts += [('split', sp) for sp in SPLITS[:5]]
     else:
         for g, nch in (('G2', 2), ('G4', 2), ('G5', 12), ('G6', 12), ('G9', 2), ('G10', 12), ('G16', 2), ('G8', 1), ('G21', 2), ('G22', 2)):
             parts += [('matrix', (g, 2 if nch <= 2 else 1, c, nch)) for c in range(nch)]
         for g, nch in (('G2', 1), ('G5', 6), ('G6', 6), ('G9', 1), ('G10', 6), ('G16', 1)):
             parts += [('rhs_far', (g, c, nch)) for c in range(nch)]
         parts += [('near_rel', (g,)) for g in ('G2', 'G3', 'G4', 'G5', 'G8', 'G9')]
+        parts += [('split', sp) for sp in SPLITS]
     run_parallel(ck, 'checks.c06', parts)
     ck.assumptions += [
         'structures: catalogue members G2/G4 (two wires, different radii and segment lengths), G5 (T), G6 (star on a first end), G8/G9/G10/G16 '
@@ -394,7 +478,7 @@ def main(args):
         'every numerical integral is an unknown shared by both descriptions; additivity of integrals over halves',
         'domain of the property: unjoined wires at least two segments apart, at most one wire per ground point (the members respect it)']
     ck.stubs += ['Mininec.fast_quad -> psi-atom stub shared by both descriptions']
-    ck.outside += ['splitting a straight wire into collinear pieces (one-wire and two-wire descriptions take different kernel shortcuts; numerical clause)',
+    ck.outside += ['in the splitting clause the self term of the pulse at the new junction (exact against reduced kernel: numerical; settled per case by the sentence on the real code)',
                    'near-field clause: decided per half-segment under C04', 'LAPACK rounding / the 5e-4 clause itself (replays only)']
     return ck.finish("Two descriptions of one structure filled over one table of unknown integrals; Z' = C Z C^T, rhs/load/far-field "
                      'relations decided by z3 for all values; C from pulse geometry only.')
